@@ -218,6 +218,14 @@ def run(prog, rep, tier):
     else:
         r3.fail(dv.name, "fib-not-ecmp", "the FIB request does not carry ecmp_paths()", dv.loc())
 
+    # the set itself: the run of paths equal to the best on every step before the router-id step (shared with R02.3)
+    from . import c02
+    from ..cfg import FnView
+    ek = prog.one(r"rustybgp_table::NlriChange::ecmp_paths")
+    efv = FnView(prog, ek)
+    r3.analysed(efv.name)
+    c02.check_ecmp(prog, efv, c02.SPEC_ORDER, r3)
+
     r4 = rep.rule("R20.4", "watch refcount: decrement only when > 1, remove at <= 1, first registration reports state")
     ks = [k for k in crate_fns(prog, "rustybgp_kernel") if any(a.endswith("Request::RegisterNexthop") or True for a in [""]) and "run_service_loop" in prog.ix[k]["name"]]
     found = False
